@@ -72,6 +72,8 @@ fn main() {
         "inc-trace" => inchash::cmd_trace(rest),
         #[cfg(feature = "nightly")]
         "prot-replay" => prot::cmd_replay(rest),
+        #[cfg(feature = "nightly")]
+        "prot-trace" => prot::cmd_trace(rest),
         other => {
             eprintln!("unknown command {}", other);
             std::process::exit(2);
